@@ -10,7 +10,7 @@ from harness.gen import text
 from harness.gen.histories import Gen, VERSIONS, MAXSUB, NODE_VERSIONS, VALID_SET, FREE_SET
 
 TEXTS = ["", "d", "Temp sensor", "名前", "😀 astral 𝟘", "tab\there", "nul\x00in", "esc\x1b[0m", "\x7f\x85", "a,b", "ß·é",
-         " lead", "q\"uote\\", "{\"id\": 1}", "\U0010ffff", "line\x0bsep\x0c", "١٢٣"]
+         " lead", "q\"uote\\", "{\"id\": 1}", "\U0010ffff", "line\x0bsep\x0c", "١٢٣", "lone\ud83dsurrogate", "\udcff"]
 TAIL_KINDS = ["nodepres", "childpres", "set", "battery", "sketchname", "sketchversion", "heartbeat", "idreq"]
 
 
